@@ -23,7 +23,7 @@ ASSUMPTIONS = [
 ]
 TOLERANCES = {"point": "(1e-9 + 1e-15 * (rmax/rmin)^2) * S (S = max |coordinate|, effective radii)", "point (lambda >= 1 - 1e-12: scaled-up / exact fit)": "1e-6 * S", "implicit equation": "1e-7 (1e-5 on the scaled-up class)"}
 MANDATORY_LABELS = {
-    "quick": ["cls:scaled-up", "cls:exact-fit", "cls:near-fit", "cls:ample", "cls:general", "cls:coincident", "cls:zero-radius", "cls:negative-radius", "flags:00", "flags:01", "flags:10", "flags:11", "route:ctor", "route:path", "route:complex", "route:kwargs", "route:path.arc", "route:relative", "rot:multiple-of-90", "rot:beyond-360"],
+    "quick": ["cls:scaled-up", "cls:exact-fit", "cls:near-fit", "cls:ample", "cls:general", "cls:coincident", "cls:zero-radius", "cls:negative-radius", "flags:00", "flags:01", "flags:10", "flags:11", "route:ctor", "route:path", "route:complex", "route:kwargs", "route:path.arc", "route:path.arc-multi", "route:relative", "rot:multiple-of-90", "rot:beyond-360"],
 }
 MANDATORY_LABELS["thorough"] = MANDATORY_LABELS["quick"]
 
@@ -46,7 +46,7 @@ def decode(d):
                 arc[2] = -abs(arc[2])
             if which & 2:
                 arc[3] = -abs(arc[3])
-    return {"arc": arc, "cls": cls, "route": d.choice(["ctor", "ctor", "path", "path", "complex", "kwargs", "path.arc", "relative"])}
+    return {"arc": arc, "cls": cls, "route": d.choice(["ctor", "ctor", "path", "path", "complex", "kwargs", "path.arc", "path.arc-multi", "relative"])}
 
 
 def parts(tier):
@@ -71,6 +71,13 @@ def build(case):
         if len(p) != 2 or lib.kind_of(p[1]) != "A":
             raise core.HarnessError("Path().move().arc() did not give [Move, Arc]: %r" % [lib.kind_of(x) for x in p])
         return p[1]
+    if route == "path.arc-multi":  # several arcs handed to one call of the builder: each starts where the previous one ended
+        p = se.Path()
+        p.move((s[0] + 3.0, s[1] - 2.0))
+        p.arc(2.0, 1.0, 15.0, 0, 1, (s[0], s[1]), rx, ry, rot, fa, fs, (e[0], e[1]), 1.0, 1.0, 0.0, 0, 0, (e[0] + 1.0, e[1]))
+        if len(p) != 4 or lib.kind_of(p[2]) != "A":
+            raise core.HarnessError("Path().move().arc(three arcs) did not give [Move, Arc, Arc, Arc]: %r" % [lib.kind_of(x) for x in p])
+        return p[2]
     if route == "relative":  # the relative command after a move to the start point
         text = "M%r,%r a%r,%r %r %d,%d %r,%r" % (s[0], s[1], rx, ry, rot, fa, fs, e[0] - s[0], e[1] - s[1])
         p = se.Path(text)
